@@ -2,8 +2,73 @@ package parse
 
 import "fmt"
 
-// parseExpr parses an expression.
+// parseExpr parses an expression: a chain of operands and binary operators,
+// optionally followed by the conditional operator, which binds loosest and
+// nests to the right.
 func (t *Tree) parseExpr() (Expr, error) {
+	expr, err := t.parseBinaryExpr(0)
+	if err != nil {
+		return nil, err
+	}
+	if nt := t.peekNonSpace(); nt.tokenType == tokenPunctuation && nt.value == "?" {
+		t.nextNonSpace()
+		tx, err := t.parseExpr()
+		if err != nil {
+			return nil, err
+		}
+		_, err = t.expectValue(tokenPunctuation, ":")
+		if err != nil {
+			return nil, err
+		}
+		fx, err := t.parseExpr()
+		if err != nil {
+			return nil, err
+		}
+		return NewTernaryIfExpr(expr, tx, fx, expr.Start()), nil
+	}
+	return expr, nil
+}
+
+// parseBinaryExpr parses an operand followed by any number of binary operators
+// whose precedence is at least minPrec (precedence climbing). Operators of
+// equal precedence group to the left, or to the right for right-associative
+// operators such as "**".
+func (t *Tree) parseBinaryExpr(minPrec int) (Expr, error) {
+	left, err := t.parseOperand()
+	if err != nil {
+		return nil, err
+	}
+	for {
+		nt := t.peekNonSpace()
+		if nt.tokenType != tokenOperator {
+			return left, nil
+		}
+		op, ok := binaryOperators[nt.value]
+		if !ok {
+			return nil, newUnexpectedTokenError(nt)
+		}
+		if op.precedence < minPrec {
+			return left, nil
+		}
+		t.nextNonSpace()
+		var right Expr
+		if op.op == OpBinaryIs || op.op == OpBinaryIsNot {
+			right, err = t.parseRightTestOperand(nil)
+		} else if op.leftAssoc() {
+			right, err = t.parseBinaryExpr(op.precedence + 1)
+		} else {
+			right, err = t.parseBinaryExpr(op.precedence)
+		}
+		if err != nil {
+			return nil, err
+		}
+		left = NewBinaryExpr(left, op.Operator(), right, left.Start())
+	}
+}
+
+// parseOperand parses a single operand of a binary expression: an inner
+// expression together with any attribute accesses, calls and filters applied to it.
+func (t *Tree) parseOperand() (Expr, error) {
 	expr, err := t.parseInnerExpr()
 	if err != nil {
 		return nil, err
@@ -15,7 +80,7 @@ func (t *Tree) parseExpr() (Expr, error) {
 // parseOuterExpr attempts to parse an expression outside of an inner
 // expression.
 // An outer expression is defined as a modification to an inner expression.
-// Examples include attribute accessing, filter application, or binary operations.
+// Examples include attribute accessing, function calls or filter application.
 func (t *Tree) parseOuterExpr(expr Expr) (Expr, error) {
 	switch nt := t.nextNonSpace(); nt.tokenType {
 	case tokenParensOpen:
@@ -31,22 +96,19 @@ func (t *Tree) parseOuterExpr(expr Expr) (Expr, error) {
 		switch nt.value {
 		case ".", "[": // Dot or array access
 			var args = make([]Expr, 0)
-			attr, err := t.parseInnerExpr()
-			if err != nil {
-				return nil, err
-			}
-
+			var attr Expr
+			var err error
 			if nt.value == "[" {
-				ntt := t.peekNonSpace()
-				if ntt.tokenType != tokenArrayClose {
-					if attr, err = t.parseOuterExpr(attr); err != nil {
-						return nil, err
-					}
+				if attr, err = t.parseExpr(); err != nil {
+					return nil, err
 				}
 				if _, err := t.expect(tokenArrayClose); err != nil {
 					return nil, err
 				}
 			} else {
+				if attr, err = t.parseInnerExpr(); err != nil {
+					return nil, err
+				}
 				switch exp := attr.(type) {
 				case *NameExpr:
 					// valid, but we want to treat the name as a string
@@ -113,59 +175,10 @@ func (t *Tree) parseOuterExpr(expr Expr) (Expr, error) {
 			// Continue parsing potential outer expressions (including more filters)
 			return t.parseOuterExpr(resultExpr)
 
-		case "?": // Ternary if
-			tx, err := t.parseExpr()
-			if err != nil {
-				return nil, err
-			}
-			_, err = t.expectValue(tokenPunctuation, ":")
-			if err != nil {
-				return nil, err
-			}
-			fx, err := t.parseExpr()
-			if err != nil {
-				return nil, err
-			}
-			return NewTernaryIfExpr(expr, tx, fx, expr.Start()), nil
-
 		default:
 			t.backup()
 			return expr, nil
 		}
-
-	case tokenOperator:
-		op, ok := binaryOperators[nt.value]
-		if !ok {
-			return nil, newUnexpectedTokenError(nt)
-		}
-
-		var right Node
-		var err error
-		if op.op == OpBinaryIs || op.op == OpBinaryIsNot {
-			right, err = t.parseRightTestOperand(nil)
-			if err != nil {
-				return nil, err
-			}
-			// Handle ternary specially
-			if v := t.peekNonSpace(); v.tokenType == tokenPunctuation && v.value == "?" {
-				return t.parseOuterExpr(NewBinaryExpr(expr, op.Operator(), right, expr.Start()))
-			}
-		} else {
-			right, err = t.parseExpr()
-			if err != nil {
-				return nil, err
-			}
-			if v, ok := right.(*BinaryExpr); ok {
-				nxop := binaryOperators[v.Op]
-				if nxop.precedence < op.precedence || (nxop.precedence == op.precedence && op.leftAssoc()) {
-					left := v.Left
-					res := NewBinaryExpr(expr, op.Operator(), left, expr.Start())
-					v.Left = res
-					return v, nil
-				}
-			}
-		}
-		return NewBinaryExpr(expr, op.Operator(), right, expr.Start()), nil
 
 	default:
 		t.backup()
@@ -218,7 +231,9 @@ func (t *Tree) parseInnerExpr() (Expr, error) {
 		if !ok {
 			return nil, newUnexpectedTokenError(tok)
 		}
-		expr, err := t.parseExpr()
+		// The operand of a unary operator extends over operators that bind
+		// tighter than the unary operator itself.
+		expr, err := t.parseBinaryExpr(op.precedence)
 		if err != nil {
 			return nil, err
 		}
